@@ -23,11 +23,12 @@ pub struct P10 {
     refused_seen: Vec<usize>,
     accepted_seen: Vec<usize>,
     pub with_kill: bool,
+    pub all_pieces: bool,
 }
 
 impl P10 {
     pub fn new(max_clients: usize) -> Self {
-        P10 { max_clients, entries_before: 0, baseline: Vec::new(), refused_seen: Vec::new(), accepted_seen: Vec::new(), with_kill: false }
+        P10 { max_clients, entries_before: 0, baseline: Vec::new(), refused_seen: Vec::new(), accepted_seen: Vec::new(), with_kill: false, all_pieces: false }
     }
 
     fn after_poll(&mut self, ctx: &mut Ctx, sim: &mut Sim) -> Option<(String, String)> {
@@ -125,8 +126,21 @@ impl HistoryProp for P10 {
                         v.push(Act::Send(c, Piece::Get));
                         v.push(Act::Send(c, Piece::Two));
                         v.push(Act::Send(c, Piece::Head));
+                        if self.all_pieces {
+                            for p in [Piece::Put, Piece::Expect, Piece::GetExpect, Piece::Bad, Piece::Big] {
+                                v.push(Act::Send(c, p));
+                            }
+                        }
                     }
                     v.push(Act::Close(c));
+                    if self.all_pieces {
+                        if !g.shut_rd {
+                            v.push(Act::ShutRd(c));
+                        }
+                        if !g.shut_wr {
+                            v.push(Act::ShutWr(c));
+                        }
+                    }
                     if sim.has_unread(gi) {
                         v.push(Act::Drain(c));
                     }
@@ -173,19 +187,43 @@ impl HistoryProp for P10 {
 
     fn finish(&mut self, ctx: &mut Ctx, sim: &mut Sim) -> Option<(String, String)> {
         // bounded settle: poll while ready, drain; no answering (owed answers keep connections alive)
+        // progress is judged on what the kernel shows: unread input queued on the server's sockets, bytes the
+        // clients have received, yields, admissions, number of connections
+        let progress_sig = |sim: &Sim| -> (usize, usize, usize, usize, usize) {
+            let socks = sim.server_side_sockets();
+            let unread: usize = socks
+                .iter()
+                .map(|(fd, _)| {
+                    let mut n: libc::c_int = 0;
+                    // SAFETY: FIONREAD writes an int.
+                    unsafe { libc::ioctl(*fd, libc::FIONREAD, &mut n) };
+                    n.max(0) as usize
+                })
+                .sum();
+            (
+                unread,
+                sim.gens.iter().map(|g| g.recv.len()).sum(),
+                sim.gens.iter().map(|g| g.yielded.len()).sum(),
+                sim.gens.iter().filter(|g| g.admission == Admission::Pending).count(),
+                socks.len(),
+            )
+        };
         let mut quiet = 0;
-        for _ in 0..60 {
-            let drained = sim.drain_all();
-            let pending_before = sim.gens.iter().filter(|g| g.admission == Admission::Pending).count();
+        for _ in 0..400 {
+            sim.drain_all();
+            let before = progress_sig(sim);
             match sim.poll() {
                 PollOut::Idle => break,
-                PollOut::Yielded(n) => {
+                PollOut::Yielded(_) => {
                     if let Some(v) = self.after_poll(ctx, sim) {
                         return Some(v);
                     }
                     self.entries_before = sim.epoll_entries().len();
-                    let pending_after = sim.gens.iter().filter(|g| g.admission == Admission::Pending).count();
-                    if n == 0 && drained == 0 && pending_before == pending_after {
+                    sim.drain_all();
+                    if std::env::var("MHV_DEBUG2").is_ok() {
+                        eprintln!("settle poll: before {:?} after {:?} quiet {} listener_ready {}", before, progress_sig(sim), quiet, crate::sim::readable_now(sim.listener_fd));
+                    }
+                    if progress_sig(sim) == before {
                         quiet += 1;
                     } else {
                         quiet = 0;
@@ -195,8 +233,8 @@ impl HistoryProp for P10 {
                 PollOut::Shutdown => return Some(("polling-failed".into(), "unexpected ShutdownEvent".into())),
             }
             // a closed connection that is still owed answers keeps the epoll descriptor readable: that is
-            // permitted, so stop once nothing else changes
-            if quiet >= 3 && sim.gens.iter().any(|g| g.client_closed && sim.owed(g)) {
+            // permitted, so stop once nothing at all has changed for a few calls
+            if quiet >= 4 && sim.gens.iter().any(|g| (g.client_closed || g.misbehaved) && sim.owed(g)) {
                 break;
             }
         }
@@ -205,7 +243,7 @@ impl HistoryProp for P10 {
             return Some(v);
         }
         for g in &sim.gens {
-            if g.admission == Admission::Refused && g.stream.is_some() {
+            if g.admission == Admission::Refused && g.stream.is_some() && !g.shut_rd {
                 if g.recv != FULL_503 || !g.eof_seen {
                     return Some(("bad-503".into(), format!("refused client c{}g{}: {} of {} bytes received, EOF seen: {}", g.client, g.gen, g.recv.len(), FULL_503.len(), g.eof_seen)));
                 }
@@ -217,7 +255,7 @@ impl HistoryProp for P10 {
         }
         // (v) nothing lost: complete requests of clients that are still open have been yielded
         for g in &sim.gens {
-            if g.admission == Admission::Accepted && !g.client_closed {
+            if g.admission == Admission::Accepted && !g.client_closed && !g.misbehaved {
                 for t in g.completed.iter().filter(|t| !t.starts_with('?')) {
                     if !g.yielded.contains(t) {
                         return Some(("request-lost".into(), format!("c{}g{} (open, accepted) sent {}; the server is idle but never yielded it", g.client, g.gen, t)));
@@ -233,13 +271,15 @@ impl HistoryProp for P10 {
         for (gi, g) in sim.gens.iter().enumerate() {
             let has = socks.iter().any(|(_, x)| *x == Some(gi));
             let pending_conn = g.admission == Admission::Pending;
-            if g.admission == Admission::Accepted && !g.client_closed && !has {
+            if g.admission == Admission::Accepted && !g.client_closed && !g.misbehaved && !has {
                 return Some(("premature-release".into(), format!("c{}g{} is open and was accepted, but its server-side socket is gone", g.client, g.gen)));
             }
             if g.client_closed && !sim.owed(g) && has {
                 return Some(("dead-connection-not-released".into(), format!("c{}g{} closed and is owed nothing, but its server-side socket is still open after the settle", g.client, g.gen)));
             }
-            if pending_conn && g.stream.is_some() && sim.epoll_entries().len() < 10 {
+            // (a client that shut down its reading side cannot see a refusal, so its Pending status may be stale:
+            // the listener itself tells whether somebody is really still waiting)
+            if pending_conn && g.stream.is_some() && !g.shut_rd && sim.epoll_entries().len() < 10 && crate::sim::readable_now(sim.listener_fd) && !sim.ready() {
                 return Some(("capacity-not-regained".into(), format!("c{}g{} is still waiting on the listener although the server holds only {} connections and is idle", g.client, g.gen, sim.epoll_entries().len())));
             }
         }
@@ -417,6 +457,9 @@ pub fn run(ctx: &mut Ctx) {
         None
     };
     hist::random_histories(ctx, &mut p, n / 2 + 1, 60, 200, "C10", &mut choose);
+    let mut p = P10::new(12);
+    p.all_pieces = true;
+    hist::random_histories(ctx, &mut p, n / 4 + 1, 60, 200, "C10", &mut choose);
 }
 
 pub fn replay(ctx: &mut Ctx, case: &J) {
@@ -434,4 +477,6 @@ pub fn debug_dump(sim: &Sim) {
         eprintln!("gen c{}g{} fd={:?} adm={:?}", g.client, g.gen, g.stream.as_ref().map(|s| std::os::unix::io::AsRawFd::as_raw_fd(s)), g.admission);
     }
     eprintln!("open fds {:?}", open_fds(64));
+    eprintln!("probe {:?}", sim.server.verif_probe().iter().map(|c| (c.fd, c.state, c.in_flight, c.connection.response_queue, c.connection.response_buffer)).collect::<Vec<_>>());
+    eprintln!("epoll ready {} entries {:?}", sim.ready(), sim.epoll_entries());
 }
